@@ -515,31 +515,31 @@ def nontrivial_hist(inp):
 
 
 CLAUSES = [
-    Clause("hist_corr", "corr", gen_hist_corr, run_history, judge_history_corr, lean=lean_history,
+    Clause("hist_corr", "corr", gen_hist_corr, U.bounded(run_history), judge_history_corr, lean=lean_history,
            nontrivial=nontrivial_hist, site="fsa.FSA (constructors, add_vertices, add_edges, delete_vertex(s), recurrent, rename_generators, deepcopy)",
            budget={"quick": 1000, "thorough": 8000},
            what="random histories (length <= 40, every construction route, 15% end in an invalid op) on the real FSA and on the Lean model; "
                 "the three dictionaries compared as sets (label lists as multisets) after every step"),
-    Clause("hist_exhaustive_corr", "corr", gen_hist_exh, run_history, judge_history_corr, lean=lean_history,
+    Clause("hist_exhaustive_corr", "corr", gen_hist_exh, U.bounded(run_history), judge_history_corr, lean=lean_history,
            nontrivial=nontrivial_hist, site="fsa.FSA mutators", budget={"quick": 8000, "thorough": 150000},
            what="bounded-exhaustive histories over 3 vertices x 2 labels (58-operation alphabet incl. has_edge queries, two initial automata), depth 1,2,3,4 until the cap"),
-    Clause("builtin_corr", "corr", gen_builtin, run_builtin, judge_builtin, lean=lean_builtin,
+    Clause("builtin_corr", "corr", gen_builtin, U.bounded(run_builtin), judge_builtin, lean=lean_builtin,
            site="fsa.load_builtin / kbmag_utils.build_dict", budget={"quick": 18, "thorough": 18},
            what="all built-in .wa/.geowa files: parsed table -> model fromKbmag vs load_builtin"),
-    Clause("hist_oracle", "oracle", gen_hist_oracle, run_history_oracle, judge_history_oracle, nontrivial=nontrivial_hist,
+    Clause("hist_oracle", "oracle", gen_hist_oracle, U.bounded(run_history_oracle), judge_history_oracle, nontrivial=nontrivial_hist,
            site="fsa.FSA views", budget={"quick": 2000, "thorough": 30000},
            what="coherence predicate + set model on the real object after every step of a valid random history; read accessors at the end"),
-    Clause("hist_exhaustive_oracle", "oracle", gen_hist_exh, run_history_oracle, judge_history_oracle, nontrivial=nontrivial_hist,
+    Clause("hist_exhaustive_oracle", "oracle", gen_hist_exh, U.bounded(run_history_oracle), judge_history_oracle, nontrivial=nontrivial_hist,
            site="fsa.FSA views", budget={"quick": 8000, "thorough": 150000},
            what="same predicate on bounded-exhaustive histories"),
-    Clause("kbmag_oracle", "oracle", gen_kbmag, run_kbmag, judge_kbmag,
+    Clause("kbmag_oracle", "oracle", gen_kbmag, U.bounded(run_kbmag), judge_kbmag,
            site="fsa.load_kbmag_file / _from_gap_record / load_builtin", budget={"quick": 400, "thorough": 4000},
            what="random kbmag record texts (tables, alphabets, spacing/newlines, interval syntax, quoted names) and the 18 built-in files: "
                 "loaded edges and start state equal the table in the text (independent regex reading for the built-ins)"),
 ]
 
 CLAUSES.append(
-    Clause("objects_oracle", "oracle", gen_objects, run_objects, judge_objects,
+    Clause("objects_oracle", "oracle", gen_objects, U.bounded(run_objects), judge_objects,
            site="fsa.FSA.__init__ (both routes) / load_builtin / load_kbmag_file / copy.deepcopy + mutators",
            budget={"quick": 400, "thorough": 8000},
            what="interleaved histories over SEVERAL automata in one process: caller-owned dictionaries (both routes) reused for further automata and "
